@@ -71,6 +71,7 @@ class Exec:
         self.side = []
         self.ctx = []          # guard context in pure mode (list of Bool)
         self.closures = {}     # fid -> Closure
+        self.ddicts = set()    # address terms of defaultdict(int) objects allocated in this function
         self.path_counter = 0
         self.loop_seen = set()
         self.used_assumptions = set()
@@ -592,6 +593,22 @@ class Exec:
         return out
 
     def ev_Compare(self, node, st):
+        # x == [c1, ..., cn] / x != [...] against a list literal of scalar constants: a list of that length with equal items
+        if len(node.ops) == 1 and isinstance(node.ops[0], (ast.Eq, ast.NotEq)):
+            lit, other = (node.comparators[0], node.left) if isinstance(node.comparators[0], ast.List) else (node.left, node.comparators[0])
+            if isinstance(lit, ast.List) and not isinstance(other, ast.List) and all(isinstance(e, ast.Constant) for e in lit.elts):
+                out = []
+                for (s, x) in self.ev(other, st):
+                    if isinstance(x, VTuple):
+                        out.append((s, Z.mk_b(isinstance(node.ops[0], ast.NotEq))))
+                        continue
+                    a = Z.addr(x)
+                    conj = [self.is_kind(s, x, Z.K_LIST), s.heap.len_of(a) == len(lit.elts)]
+                    for k, e in enumerate(lit.elts):
+                        conj.append(self.py_eq(s, s.heap.item(a, z3.IntVal(k)), self.ev1(e, s), node))
+                    c = z3.And(conj)
+                    out.append((s, Z.mk_b(c if isinstance(node.ops[0], ast.Eq) else z3.Not(c))))
+                return out
         # chains a < b < c evaluated left to right (each operand once)
         operands = [node.left] + list(node.comparators)
         out = []
@@ -650,6 +667,22 @@ class Exec:
             raise Unsupported("tuple in container", node)
         h = st.heap
         a = Z.addr(cont)
+        if self.spec:
+            # specifications are total: dispatch on the container's kind symbolically
+            j = Z.fresh_int('j')
+            arr, n = h.elems(a), h.len_of(a)
+            e = lambda y: z3.If(z3.And(Z.is_num(x), Z.is_num(y)), Z.num(x) == Z.num(y), x == y)
+            in_seq = z3.Exists([j], z3.And(j >= 0, j < n, e(z3.Select(arr, j))))
+            is_seq = z3.simplify(self.is_kind(st, cont, Z.K_LIST, Z.K_TUPLE))
+            if z3.is_true(is_seq):
+                return st, in_seq
+            if z3.is_false(is_seq):
+                return st, h.has_key(a, self.nk(x))
+            if st.implies(is_seq):
+                return st, in_seq
+            if st.implies(z3.Not(is_seq)):
+                return st, h.has_key(a, self.nk(x))
+            return st, z3.If(is_seq, in_seq, h.has_key(a, self.nk(x)))
         if self.known(st, Z.is_s(cont)):
             st2 = self.guard(st, Z.is_s(x), 'TypeError', 'in <string> requires string')
             if st2 is None:
@@ -734,6 +767,12 @@ class Exec:
                 return []
             s3 = self.guard(s2, Z.num(b) != 0, 'ZeroDivisionError', 'division by zero')
             return [] if s3 is None else [(s3, Z.mk_r(self.real_div(Z.num(a), Z.num(b))))]
+        if isinstance(op, ast.Mod) and not self.spec and self.known(st, Z.is_s(a)):
+            # A6: old-style string formatting 'text %s' % value gives some text (uninterpreted function of template and argument);
+            # a mismatch between the template's fields and the arguments is outside the model (templates here are literals with one %s)
+            self.used_assumptions.add('A6')
+            st, b2 = self.materialize(st, b)
+            return [(st, Z.mk_s(Z.FORMAT1(Z.sv(a), b2)))]
         if isinstance(op, (ast.FloorDiv, ast.Mod)):
             s2 = self.guard(st, bothnum, 'TypeError', '// or % on non-numbers')
             if s2 is None:
@@ -854,8 +893,13 @@ class Exec:
         h = st.heap
         a = Z.addr(base)
         if self.known(st, self.is_kind(st, base, Z.K_DICT)) or (self.spec and not z3.is_false(z3.simplify(Z.is_s(idx)))
-                                                                 and z3.is_true(z3.simplify(Z.is_s(idx)))):
-            k = self.nk(idx)
+                                                                 and z3.is_true(z3.simplify(Z.is_s(idx)))) \
+                or (self.spec and not z3.is_false(z3.simplify(self.is_kind(st, base, Z.K_DICT))) and st.implies(self.is_kind(st, base, Z.K_DICT))):
+            k = self.nk(idx if self.spec else self.narrow(st, idx))
+            if not self.spec and z3.simplify(a).sexpr() in self.ddicts:
+                # defaultdict(int): a missing key reads as 0 and is inserted
+                v = z3.simplify(z3.If(h.has_key(a, k), h.get(a, k), Z.mk_i(0)))
+                return [(st.with_heap(h.set_key(a, k, v)), v)]
             s2 = self.guard(st, h.has_key(a, k), 'KeyError', 'missing key ' + ast.unparse(node.slice) if hasattr(node, 'slice') else 'missing key')
             return [] if s2 is None else [(s2, h.get(a, k))]
         if self.known(st, self.is_kind(st, base, Z.K_LIST, Z.K_TUPLE)) or self.spec:
@@ -933,6 +977,9 @@ class Exec:
             return [(st, Val.cls(z3.IntVal(-1)))]
         if txt == 'sys.maxsize':
             return [(st, Z.mk_i(2 ** 63 - 1))]
+        if txt in ('np.pi', 'np.e', 'math.pi', 'math.e'):
+            # a named real constant (its decimal value is not needed by any obligation)
+            return [(st, Z.mk_r(z3.Real('CONST_' + txt.split('.')[1].upper())))]
         out = []
         for (s, obj) in self.ev(node.value, st):
             out.extend(self.getattr(s, obj, node.attr, node))
@@ -945,6 +992,9 @@ class Exec:
         if attr == '__class__':
             s2 = self.guard(st, self.is_kind(st, obj, Z.K_OBJ), 'Unsupported', '__class__ of non-object')
             return [] if s2 is None else [(s2, Val.cls(h.class_of(a)))]
+        if attr == '__name__' and not self.spec:
+            self.used_assumptions.add('A6')
+            return [(st, Z.mk_s(Z.NAME_OF(obj)))]
         if self.spec:
             return [(st, h.get(a, key))]
         if not self.known(st, self.is_kind(st, obj, Z.K_OBJ)):
@@ -1100,7 +1150,7 @@ class Exec:
         h = st.heap
         a = Z.addr(base)
         if self.known(st, self.is_kind(st, base, Z.K_DICT)):
-            return [st.with_heap(h.set_key(a, self.nk(idx), v))]
+            return [st.with_heap(h.set_key(a, self.nk(self.narrow(st, idx)), v))]
         if self.known(st, self.is_kind(st, base, Z.K_LIST)):
             n = h.len_of(a)
             s2 = self.guard(st, Z.is_intlike(idx), 'TypeError', 'list index must be int')
